@@ -97,3 +97,43 @@ def state_written_only_by_the_machine(index, prop):
             persisted |= {a.value for a in d.args if isinstance(a, ast.Constant)}
     res.append(ob('scan::_state_not_auto_persisted', '_state' not in persisted, f'Process auto-persists {sorted(persisted)}'))
     return res
+
+
+def user_code_runs_in_scope(index, prop):
+    """C18 call-graph lemma: the places where a process runs user code -- the state's execute (step functions and
+    continuations) and call_soon callbacks -- are reached through Process._run_task, i.e. inside _process_scope."""
+    res = []
+    step = index.funcs['plumpy.processes.Process.step']
+    src = ast.unparse(step.node)
+    res.append(ob('scan::step_executes_state_inside_run_task', 'await self._run_task(self._state.execute)' in src,
+                  'Process.step runs the current state through self._run_task(self._state.execute)'))
+    cs = index.funcs['plumpy.processes.Process.call_soon']
+    src = ast.unparse(cs.node)
+    res.append(ob('scan::call_soon_wraps_callback_in_run_task', 'events.ProcessCallback(self, self._run_task, args, kwargs)' in src
+                  and 'args = (callback,) + args' in src, 'Process.call_soon schedules ProcessCallback(self, self._run_task, (callback,)+args, kwargs)'))
+    rt = index.funcs['plumpy.processes.Process._run_task']
+    body = [s for s in rt.node.body if not (isinstance(s, ast.Expr) and isinstance(s.value, ast.Constant))]
+    ok = any(isinstance(s, ast.With) and ast.unparse(s.items[0].context_expr) == 'self._process_scope()'
+             and any(isinstance(n, ast.Await) for n in ast.walk(s)) for s in body)
+    res.append(ob('scan::run_task_awaits_inside_the_scope', ok, '_run_task awaits the callee inside `with self._process_scope()`'))
+    callers = [q for q, fi in index.funcs.items() for n in ast.walk(fi.node)
+               if isinstance(n, ast.Attribute) and n.attr == 'execute' and isinstance(n.value, ast.Attribute) and n.value.attr == '_state']
+    res.append(ob('scan::state_execute_only_from_step', set(callers) <= {'plumpy.processes.Process.step'},
+                  f'functions referring to self._state.execute: {sorted(set(callers))}'))
+    return res
+
+
+def hooks_run_in_scope(index, prop):
+    """C18 for lifecycle hooks: the state transition at the end of a step (which runs on_run / on_finish / ... and the
+    listeners) must be performed inside the process scope as well."""
+    step = index.funcs['plumpy.processes.Process.step']
+    inside = False
+    for n in ast.walk(step.node):
+        if isinstance(n, (ast.With, ast.AsyncWith)) and any('_process_scope' in ast.unparse(i.context_expr) for i in n.items):
+            txt = ast.unparse(n)
+            if 'transition_to' in txt and '_interrupt_action.run' in txt:
+                inside = True
+    meta = index.funcs['plumpy.base.state_machine.StateMachineMeta.__call__']
+    return [ob('scan::transition_hooks_run_in_scope', inside,
+               'Process.step performs self.transition_to(next_state) / self._interrupt_action.run(next_state) inside `with self._process_scope()`',
+               {'function': 'plumpy.processes.Process.step'})]
